@@ -808,7 +808,7 @@ pub fn select_a(f: &Factors, want: usize, v: Verbosity) -> Vec<Uint> {
         }
         // A is smaller than sqrt(n) so 256-bit arithmetic is enough.
         let mut product = U256::one();
-        let mut mask = 0u64;
+        let mut mask = 0u128; // up to 4 * nfacs = 80 selected primes
         while mask.count_ones() < f.nfacs as u32 - 1 {
             let g = gen();
             if mask & (1 << g) == 0 {
